@@ -15,6 +15,7 @@ type S struct {
 	Line string
 	Body []*S // non-nil for compound statements (may be empty)
 	Else []*S // optional else branch
+	Raw  bool // a line that is not a statement of its own (case label, break): never a directive target, ends ranges
 	// filled by layout
 	start, end int
 }
@@ -27,6 +28,8 @@ func nocall(n int) *S                   { return simple(fmt.Sprintf("call nosuch
 func badarg(n int) *S                   { return simple(fmt.Sprintf("set req.http.B%d = std.itoa(\"x%d\");", n, n)) }
 func arity(n int) *S                    { return simple(fmt.Sprintf("set req.http.C%d = std.itoa(%d, 2, 3);", n, n)) }
 func okstmt(n int) *S                   { return simple(fmt.Sprintf("set req.http.Ok%d = \"v\";", n)) }
+func raw(l string) *S                   { return &S{Line: l, Raw: true} }
+func unusedDecl(n int) *S               { return simple(fmt.Sprintf("declare local var.unused%d STRING;", n)) }
 func infoerr(n int) *S                  { return simple(fmt.Sprintf("error 9%d;", 1000+n)) }
 
 type program struct {
@@ -48,6 +51,10 @@ func programs() []program {
 		{"info", [][]*S{{infoerr(1), undef(2), infoerr(3)}}},
 		{"empty-block", [][]*S{{undef(1), block("if (req.http.X == \"1\") {"), undef(2)}}},
 		{"same-rule-twice", [][]*S{{arity(1), arity(2), badarg(3), arity(4)}}},
+		// statements inside switch cases
+		{"switch", [][]*S{{undef(1), block("switch (req.http.X) {", raw("case \"1\":"), undef(2), nocall(3), raw("break;"), raw("case \"2\":"), badarg(4), raw("fallthrough;"), raw("default:"), undef(5), raw("break;")), undef(6)}}},
+		// diagnostics that are reported for a statement after its subroutine has been walked (unused local)
+		{"late-diagnostic", [][]*S{{unusedDecl(1), undef(2), unusedDecl(3), okstmt(4)}, {unusedDecl(5), undef(6)}}},
 	}
 }
 
@@ -173,6 +180,9 @@ func leadingSpace(l string) string { return l[:len(l)-len(strings.TrimLeft(l, " 
 func placements(r *rendered) []Directive {
 	var ds []Directive
 	for _, s := range r.all {
+		if s.Raw {
+			continue
+		}
 		tgt := "simple"
 		if s.Body != nil {
 			tgt = "compound"
@@ -184,7 +194,16 @@ func placements(r *rendered) []Directive {
 	}
 	for _, b := range r.blks {
 		for i := range b {
+			if b[i].Raw {
+				continue
+			}
 			for j := i; j < len(b); j++ {
+				if b[j].Raw {
+					break // ranges stay within one run of statements (e.g. one case clause)
+				}
+				if j+1 >= len(b) && len(b) > 0 && hasRaw(b) {
+					continue // no "last comment of the block" placement inside a switch: it would sit after break
+				}
 				// covers b[i]..b[j]; end comment before b[j+1] or as last comment of the block
 				d := Directive{Form: "range", From: b[i].start, To: b[j].end, At: b[i].start, Target: "range"}
 				if j+1 < len(b) {
@@ -197,6 +216,15 @@ func placements(r *rendered) []Directive {
 		}
 	}
 	return ds
+}
+
+func hasRaw(b []*S) bool {
+	for _, s := range b {
+		if s.Raw {
+			return true
+		}
+	}
+	return false
 }
 
 func rulesOf(diags []lintx.Diag, from, to int, inside bool) []string {
@@ -503,7 +531,7 @@ func init() {
 	engine.Register(engine.Spec[Case]{
 		ID:    "C12",
 		Level: "exploration",
-		Rule: "12 base programs with 3-8 lint errors (several rules, nested in if/else/bare blocks, first/last statement, two subroutines, after the covered region); every placement of one directive (next-line before every statement incl. compound ones, trailing on every simple statement, start/end around every contiguous range of every block with the end before the next statement or as the last comment of the block) x {no rule list, a covered rule, an uncovered rule, two rules} x {//, #, /* */}; every pair of placements (thorough: every triple); two (thorough: three) next-line comments stacked in front of one statement with different rule lists; oracle: diagnostics(with) = diagnostics(base) minus those located on covered lines (and of a listed rule), compared as multisets of (severity, rule, message); non-trivial = at least one diagnostic is covered; distinct = distinct program text",
+		Rule: "14 base programs with 3-8 lint errors (several rules, nested in if/else/bare blocks and switch cases, first/last statement, two subroutines, after the covered region, diagnostics reported late such as unused locals); every placement of one directive (next-line before every statement incl. compound ones, trailing on every simple statement, start/end around every contiguous range of every block with the end before the next statement or as the last comment of the block) x {no rule list, a covered rule, an uncovered rule, two rules} x {//, #, /* */}; every pair of placements (thorough: every triple); two (thorough: three) next-line comments stacked in front of one statement with different rule lists; oracle: diagnostics(with) = diagnostics(base) minus those located on covered lines (and of a listed rule), compared as multisets of (severity, rule, message); non-trivial = at least one diagnostic is covered; distinct = distinct program text",
 		Gen:  gen12,
 		Key:  func(c Case) string { return c.With },
 		Run:  run,
